@@ -193,3 +193,72 @@ PROPS["C18"] = {
     "technique": "Coq proof by induction on a rank (fuel-independent resolution) + differential correspondence on real Depends graphs",
     "design": "DESIGN.md §3 C18",
 }
+
+PROPS["C17"] = {
+    "text": "Theorems over a model of the middleware wrapper on operation trees (a wrapped operation, the wrapped operations its "
+            "body calls, its outcome), for all trees, all subscriber sets and both call styles: a succeeding operation emits "
+            "exactly [before; ...; effect; after(result)] to the subscribers of its own connection with its arguments by name, a "
+            "failing one only the before signal, nested operations emit nothing at any depth (nested_silent), subscribers cannot "
+            "change result, exception or effects (noninterference, for every tree), a subscriber is called with exactly the named "
+            "arguments its signature accepts, positional and keyword call styles name the arguments identically; actor_run signals "
+            "go to the processor's own connection for any creation history (true since the fix recorded for C17, refuted by "
+            "witness for the class-level wrapper). Tie: ~260 sequences of directly called wrapped operations on 1-2 connections "
+            "with generated subscribers (each re-run without subscribers), ~70 deliveries through Workers of two live connections.",
+    "note": "In-memory brokers only. Subscribers raising BaseException, cancellation inside emit_signal and the relative order of "
+            "sync (thread-pool) subscribers within one signal are outside the model. The accepted-keyword rule is "
+            "getfullargspec(fn).args (keyword-only names are not passed), as the code does.",
+    "technique": "Coq proof by induction over operation trees + differential correspondence on real brokers with generated subscribers",
+    "design": "DESIGN.md §3 C17",
+}
+
+RUNNER_NOTE = ("The worker model (Runner.v) is an event-labelled transition system whose events are the atomic blocks of _run_consumer / "
+               "_task_callback / run_one_queue and of CPython 3.12's asyncio.Semaphore (value + FIFO waiters, release hands over at "
+               "once); theorems hold for every event sequence the step function accepts, i.e. for every schedule. The tie is trace "
+               "acceptance: every recorded run of the real Worker must be accepted event by event and end in the observed counters. "
+               "Events are labelled by reading the runner's limiter / stop-event identities and task frame locals. In-memory broker "
+               "only; thread/process-pool actors and actors ignoring cancellation are outside. ")
+
+PROPS["C09"] = {
+    "text": "Theorems over all accepted event sequences of the worker model: value + running tasks + loops holding a slot = "
+            "tasks_limit and value >= 0 (limiter_inv), hence never more than tasks_limit processing tasks; every task end releases "
+            "exactly one slot and is counted once; consumption pauses iff the limiter is locked and a release hands the slot to the "
+            "first waiting loop at once; while a loop waits every slot is in use (no lost wake-up); PARTIAL liveness: a loop that "
+            "has work and is not waiting for a slot always has an enabled step (fairness of the event loop assumed, eventual "
+            "execution checked by the oracle). Tie: ~260 real Worker runs per quick run in virtual time (limits 1-5, 1-3 queues, "
+            "1-30 jobs, bursts and arrivals at the instants slots free), traces accepted by the model; oracle: running maximum <= "
+            "limit, every job executed once, completion within the list-scheduling bound.",
+    "note": RUNNER_NOTE,
+    "technique": "Coq proof by invariants over all event sequences of a transition-system model + trace acceptance of real worker runs",
+    "design": "DESIGN.md §3 C09",
+}
+PROPS["C10"] = {
+    "text": "Theorems over all accepted event sequences: with messages_limit = M at most M executions start (started_le_M; true since "
+            "the fix recorded for C10, refuted by witness for the loop before it: M=2, backlog 5, 5 executions), started = finished + "
+            "in progress, once M have finished the stop event is set, and a message taken beyond the limit goes back to its queue "
+            "unchanged with nothing started or counted. Tie: ~260 real Worker(messages_limit=M) runs per quick run (M 1-5, backlog "
+            "M..M+10, 1-3 queues, tasks_limit 1/M/>M, durations 0..400 ms, arrivals during the run), traces accepted by the model; "
+            "oracle: executions <= M, run returns, M finish, surplus messages waiting unchanged; run-on-enqueue mode (M = 1).",
+    "note": RUNNER_NOTE + "Reaching the limit starts the documented graceful shutdown: an in-flight actor that outlives the graceful "
+            "period is cancelled and its message rejected (C03), not counted against C10.",
+    "technique": "Coq proof by invariants over all event sequences of a transition-system model + trace acceptance of real worker runs",
+    "design": "DESIGN.md §3 C10",
+}
+
+PROPS["C07"] = {
+    "text": "Theorems: decode(encode(x)) = x for Parameters (timeout, result settings, retries, delay incl. cron, timestamp, "
+            "time-to-live) and for both bucket classes, over a JSON-value model of asdict/decode (params_roundtrip, ...); a "
+            "duration of n microseconds survives the binary64 float-seconds wire format exactly for every 0 <= n < 2^32 s "
+            "(td_roundtrip, Flocq, all roundings to nearest); every name/id the validators accept and every priority survive the "
+            "Redis message/queue-name encodings (parse_mnc, parse_short, full_from_short, queue_marker) and the encodings are "
+            "injective (Redis mnc/qnc, RabbitMQ qnc); the Redis topic prefix test is exact; the bucket marker round-trips and "
+            "marker_check_spec characterises exactly the excluded payloads. Tie: ~1.2k encoded/decoded objects, ~16k codec and "
+            "validator cases against the real functions, ~400 Job.enqueue -> consume round trips on the in-memory broker with "
+            "inline and bucket transport per quick run.",
+    "note": "json/isoformat are trusted inverses (round trip checked directly by the oracle); C07_td_roundtrip is about the real-number "
+            "functions RN(n/10^6) and CPython's delta_new (read off its source) and depends on the axioms of Coq's Reals and "
+            "classical logic (sig_not_dec, sig_forall_dec, functional_extensionality_dep, classic), all other theorems are closed; "
+            "the Redis/RabbitMQ codecs are verified as pure functions, their server round trip (and RabbitMQ's `priority or MEDIUM`, "
+            "DESIGN.md §4 #16) is NOT exercised in this revision; delivery equality is shown for the in-memory broker only.",
+    "technique": "Coq proof (codec round-trips by induction on text, Flocq rounding-error bound) + differential correspondence of codecs",
+    "design": "DESIGN.md §3 C07",
+}
